@@ -1,18 +1,33 @@
 import FalconModel.Ws
 open Ws
 
+/-! line protocol of the C17 correspondence: one session per line, `key=value` tokens separated by blanks
+
+    case supH=0|1 supR=0|1 err=<int> bin=0|1 fail=-|<n> fault=os|os<code>|ok1000|sub|other q=0|1 first=0|1
+         route=r|u|n inbox=<in>,… reasons=<int>,… mwreq=<step>;… mwres=<step>;… script=<step>;… custom=none|h:<step>;… fd=-|<int>
+
+    step = <op>:<catch 0|1|2>:<disc -|int>;  op = A<headers><subprotocol><badsub> | C(n|x|<int>)[+] | St | Sb | Rt | Rd | Rm |
+    H<status> | T<status> | X | B;  in = t1 | t0 | b | dn | d<code>
+
+    reply: sent=<ev>,… log=<outcome>,… hlog=<outcome>,… esc=<exc>|- pub=<unaccepted><closed><ready>|- -/
+
 def kv (ws : List String) (k : String) : String :=
   match ws.find? (·.startsWith (k ++ "=")) with
   | some s => (s.drop (k.length + 1)).toString
   | none => ""
 
+def b01 (c : Char) : Bool := c == '1'
+
 def parseOp (s : String) : Option Op :=
   match s.toList with
-  | ['A', '0'] => some (.accept false)
-  | ['A', '1'] => some (.accept true)
-  | ['C', 'n'] => some (.close .none)
-  | ['C', 'x'] => some (.close .notInt)
-  | 'C' :: r => (String.ofList r).toInt?.map fun c => .close (.int c)
+  | ['A', h, p, b] => some (.accept (b01 h) (b01 p) (b01 b))
+  | ['C', 'n'] => some (.close .none false)
+  | ['C', 'n', '+'] => some (.close .none true)
+  | ['C', 'x'] => some (.close .notInt false)
+  | ['C', 'x', '+'] => some (.close .notInt true)
+  | 'C' :: r =>
+    let (r, plus) := if r.getLast? == some '+' then (r.dropLast, true) else (r, false)
+    (String.ofList r).toInt?.map fun c => .close (.int c) plus
   | ['S', 't'] => some (.send .text)
   | ['S', 'b'] => some (.send .bytes)
   | ['R', 't'] => some (.recv .text)
@@ -21,6 +36,7 @@ def parseOp (s : String) : Option Op :=
   | 'H' :: r => (String.ofList r).toInt?.map .raiseHttp
   | 'T' :: r => (String.ofList r).toInt?.map .raiseStatus
   | ['X'] => some .raiseExc
+  | ['B'] => some .raiseBoom
   | _ => none
 
 def parseIn (s : String) : Option InEv :=
@@ -35,7 +51,7 @@ def parseIn (s : String) : Option InEv :=
 def showEv : Ev × Bool → String
   | (e, ok) =>
     (match e with
-     | .accept h => if h then "acc1" else "acc0"
+     | .accept h s => s!"acc{if h then 1 else 0}{if s then 1 else 0}"
      | .send .text => "snd:t"
      | .send .bytes => "snd:b"
      | .close c r => s!"cls:{c}:{if r then 1 else 0}") ++ (if ok then "" else "!")
@@ -50,32 +66,46 @@ def showExc : Exc → String
   | .httpError s => s!"HE:{s}"
   | .httpStatus s => s!"HS:{s}"
   | .pyErr => "PY"
-
-def showSt : S → String | .handshake => "handshake" | .accepted => "accepted" | .closed => "closed"
+  | .assertion => "AE"
+  | .boom => "BOOM"
 
 def splitNE (s : String) (sep : String) : List String := if s.isEmpty then [] else s.splitOn sep
+
+def parseDisc (s : String) : Option Int := if s == "-" then none else s.toInt?
+
+def parseSteps (s : String) : List Step :=
+  (splitNE s ";").filterMap fun t =>
+    match t.splitOn ":" with
+    | [o, c, d] => (parseOp o).map fun op => (op, (if c == "1" then Catch.documented else if c == "2" then Catch.all else Catch.none), parseDisc d)
+    | _ => none
+
+def parseFault (s : String) : Fault :=
+  if s == "ok1000" then .ok1000 else if s == "sub" then .subproto else if s == "other" then .other
+  else if s == "os" then .os none else .os ((s.drop 2).toString.toInt?)
+
+def showLog (l : List (Option Exc)) : String := ",".intercalate (l.map fun | none => "ok" | some e => showExc e)
 
 def runCase (ws : List String) : String :=
   let w : W := {
     supHeaders := kv ws "supH" == "1", supReason := kv ws "supR" == "1",
     reasonCodes := (splitNE (kv ws "reasons") ",").filterMap (·.toInt?),
     errCloseCode := (kv ws "err").toInt!, binMediaOk := kv ws "bin" == "1",
-    failAt := (kv ws "fail").toNat?, inbox := (splitNE (kv ws "inbox") ",").filterMap parseIn }
+    failAt := (kv ws "fail").toNat?, fault := parseFault (kv ws "fault"), buffered := kv ws "q" == "1",
+    inbox := (splitNE (kv ws "inbox") ",").filterMap parseIn }
   if kv ws "first" == "0" then
     let w := rejectFirst w
-    s!"sent={",".intercalate (w.sent.map showEv)} log= esc={if w.sent.all (·.2) then "-" else "OSE"} st=- code=-"
+    s!"sent={",".intercalate (w.sent.map showEv)} log= hlog= esc={if w.sent.all (·.2) then "-" else showExc w.fault.raw} pub=-"
   else
-  let script : Option (List (Op × Bool)) :=
-    if kv ws "routed" == "1" then
-      some ((splitNE (kv ws "script") ";").filterMap fun s =>
-        match s.splitOn ":" with
-        | [o, c] => (parseOp o).map fun op => (op, c == "1")
-        | _ => none)
-    else none
-  let (w, log, esc) := handle w script
-  let stS := if script.isSome then showSt w.st else "-"
-  let cdS := if script.isSome then (match w.closeCode with | some c => toString c | none => "none") else "-"
-  s!"sent={",".intercalate (w.sent.map showEv)} log={",".intercalate (log.map fun | none => "ok" | some e => showExc e)} esc={match esc with | none => "-" | some e => showExc e} st={stS} code={cdS}"
+  let cu := kv ws "custom"
+  let c : Cfg := { custom := if cu.startsWith "h:" then some (parseSteps (cu.drop 2).toString) else none, fd := parseDisc (kv ws "fd") }
+  let route : Route := match kv ws "route" with
+    | "u" => .unrouted
+    | "n" => .noResponder
+    | _ => .responder (parseSteps (kv ws "script"))
+  let r := handleMw c w (parseSteps (kv ws "mwreq")) (parseSteps (kv ws "mwres")) route
+  let bit (b : Bool) := if b then "1" else "0"
+  let pub := bit (r.w.st == .handshake) ++ bit (r.w.isClosed c.fd) ++ bit (r.w.st == .accepted && c.fd.isNone)
+  s!"sent={",".intercalate (r.w.sent.map showEv)} log={showLog r.log} hlog={showLog r.hlog} esc={match r.esc with | none => "-" | some e => showExc e} pub={pub}"
 
 partial def loop (h : IO.FS.Stream) : IO Unit := do
   let line ← h.getLine
